@@ -25,16 +25,21 @@ from harness import core
 from harness.props import c02, c03
 
 PROP = "C13"
-ALIASES = ["ta", "tb"]
+ALIASES = ["ta", "tb", "tc"]
+# source dataset names other than the canonical ones: same order as ta < tb < tc / the opposite order (orientation of every
+# cross-dataset pair flips); "default" = no input_table_aliases (Splink names the tables by their POSITION in the input list)
+SDNAMES = {"renamed": ["alpha", "beta", "gamma"], "swapped": ["zc", "zb", "za"]}
+SDCOLS = ["Src", "src dataset"]  # source_dataset_column_name: upper-case letters / needs quoting
 CANON = {"a": "a", "b": "b", "c": "c", "uid": "unique_id"}
+# "d": a column the model does not use, kept in the output through additional_columns_to_retain (scenarios with "extra")
 NAMESETS = {
-    "lower": {"a": "a", "b": "b", "c": "c"},
-    "mixed": {"a": "Surname", "b": "FirstName", "c": "Age"},          # F4: case-sensitive name comparison
-    "upper": {"a": "SURNAME", "b": "FIRST_NAME", "c": "AGE"},
-    "space": {"a": "sur name", "b": "first name", "c": "age yrs"},      # F1: names that need quoting
-    "keyword": {"a": "date", "b": "type", "c": "order"},               # SQL keywords (reserved one on the column without TF adjustment)
-    "reserved": {"a": "group", "b": "order", "c": "select"},           # reserved words everywhere: defects D2/D3 (excluded, corpus cases)
-    "mixture": {"a": "Surname", "b": "first name", "c": "order"},
+    "lower": {"a": "a", "b": "b", "c": "c", "d": "d"},
+    "mixed": {"a": "Surname", "b": "FirstName", "c": "Age", "d": "NoteText"},          # F4: case-sensitive name comparison
+    "upper": {"a": "SURNAME", "b": "FIRST_NAME", "c": "AGE", "d": "NOTE"},
+    "space": {"a": "sur name", "b": "first name", "c": "age yrs", "d": "note text"},      # F1: names that need quoting
+    "keyword": {"a": "date", "b": "type", "c": "order", "d": "comment"},               # SQL keywords (reserved one on the column without TF adjustment)
+    "reserved": {"a": "group", "b": "order", "c": "select", "d": "table"},           # reserved words everywhere: defects D2/D3 (excluded, corpus cases)
+    "mixture": {"a": "Surname", "b": "first name", "c": "order", "d": "Note text"},
 }
 UIDNAMES = ["unique_id", "Id", "record id"]
 NOT_OBS = c03.NOT_OBS
@@ -48,12 +53,12 @@ def gen_rule_sym(rng):
 
 def gen_scenario(rng: random.Random, engine=None):
     engine = engine or rng.choice(["duckdb", "duckdb", "duckdb", "sqlite"])
-    k = rng.choice([1, 2, 2])
+    k = rng.choice([1, 1, 2, 2, 2, 3])  # 3 tables: link_only takes the general self-join path, not the two-table split
     link_type = "dedupe_only" if k == 1 else rng.choice(["link_only", "link_and_dedupe"])
     null_rate = rng.choice([0.0, 0.1, 0.25])
     tables = []
     for _ in range(k):
-        n = rng.randint(4, 9) if k == 1 else rng.randint(2, 6)
+        n = rng.randint(4, 9) if k == 1 else rng.randint(2, 6) if k == 2 else rng.randint(2, 4)
         ids = rng.sample(range(1, 14), n)  # overlapping across tables; 9 vs 10: string order differs from int order
         tables.append([{"uid": u,
                         "a": None if rng.random() < null_rate else rng.choice(c02.STR_DOM[:5]),
@@ -69,22 +74,100 @@ def gen_scenario(rng: random.Random, engine=None):
                 l["u"] = 0.05  # infinite Bayes factors are C02's business
         comps.append(cc)
     em_col = rng.choice([c for c in ["a", "b", "c"]])
-    return {"engine": engine, "link_type": link_type, "tables": tables, "rules": rules, "comparisons": comps,
-            "prior": rng.choice([0.01, 0.1, 0.3, round(rng.uniform(0.01, 0.6), 3)]), "em_col": em_col, "tag": "random"}
+    return add_extra_column(rng, {"engine": engine, "link_type": link_type, "tables": tables, "rules": rules, "comparisons": comps,
+                                  "prior": rng.choice([0.01, 0.1, 0.3, round(rng.uniform(0.01, 0.6), 3)]), "em_col": em_col, "tag": "random"})
+
+
+def add_extra_column(rng, scn, rate=0.4):
+    """A column outside the model that identifies the record, retained through additional_columns_to_retain (NULL for some records)."""
+    if rng.random() < rate:
+        scn["extra"] = True
+        for ti, t in enumerate(scn["tables"]):
+            for r in t:
+                r["d"] = None if rng.random() < 0.15 else f"rec {ALIASES[ti]}{r['uid']}"
+    return scn
+
+
+# ---- family "lr_features": model features that read the l and the r record SEPARATELY, on data where the two sides differ
+# A term-frequency adjustment on a level that is not an exact match divides by the greater of tf_l and tf_r (and
+# tf_minimum_u_value): the two values of a pair in such a level are different, so are their term frequencies when the value
+# frequencies are skewed.  Every re-presentation that turns a scored pair round must leave its Bayes factors alone.
+LR_DOM = {"a": ["ann", "anne", "an", "bob", "bobb", "cy", ""], "b": ["ann", "anne", "bob", "bobb", "an"]}
+
+
+def gen_lr_comparison(rng, col):
+    shape = rng.choice(["eq+lev", "eq+lev", "eq+lev+lev2", "eq+lev+lev2", "lev_only"])
+    levels = [{"kind": "null"}] if rng.random() < 0.85 else []
+    if shape != "lev_only":
+        levels.append({"kind": "eq"})
+    levels.append({"kind": "lev", "k": 1})
+    if shape == "eq+lev+lev2":
+        levels.append({"kind": "lev", "k": 2})
+    levels.append({"kind": "else"})
+    nn = [l for l in levels if l["kind"] != "null"]
+    for l, m, u in zip(nn, c02.gen_probs(rng, len(nn)), c02.gen_probs(rng, len(nn))):
+        l["m"], l["u"] = m, u
+    for l in nn[:-1]:
+        if rng.random() < (0.7 if l["kind"] == "eq" else 0.9):
+            # with / without a tf_minimum_u_value, weights 1 / fractional / 0; "omit_defaults": default-valued keys are left out of the settings
+            l["tf"] = {"weight": rng.choice([1.0, 1.0, 0.5, 0.3, 0.0]), "minU": rng.choice([0.0, 0.0, 0.0, 0.01, 0.2])}
+            if rng.random() < 0.35:
+                l["tf"]["omit_defaults"] = True
+            if l["kind"] == "lev" and (shape == "lev_only" or rng.random() < 0.25):
+                l["tf"]["disable_detection"] = True  # no exact-match level on the column: the level must name its own u
+    return {"col": col, "levels": levels}
+
+
+def gen_scenario_lr(rng: random.Random, engine=None):
+    engine = engine or rng.choice(["duckdb", "duckdb", "duckdb", "sqlite"])
+    k = rng.choice([1, 2, 2, 3])
+    link_type = "dedupe_only" if k == 1 else rng.choice(["link_only", "link_only", "link_and_dedupe"])
+    null_rate = rng.choice([0.0, 0.0, 0.1])
+    weights = {c: [rng.choice([1, 1, 2, 3, 6]) for _ in LR_DOM[c]] for c in ("a", "b")}  # skewed value frequencies
+    tables = []
+    for _ in range(k):
+        n = rng.randint(6, 10) if k == 1 else rng.randint(3, 6) if k == 2 else rng.randint(2, 4)
+        ids = rng.sample(range(1, 14), n)
+        tables.append([{"uid": u,
+                        "a": None if rng.random() < null_rate else rng.choices(LR_DOM["a"], weights["a"])[0],
+                        "b": None if rng.random() < null_rate else rng.choices(LR_DOM["b"], weights["b"])[0],
+                        "c": None if rng.random() < null_rate else rng.choice(c02.INT_DOM)} for u in ids])
+    rules = [gen_rule_sym(rng) for _ in range(rng.choice([0, 0, 1, 1, 2]))]
+    comps = [gen_lr_comparison(rng, "a"), gen_lr_comparison(rng, "b")]
+    if rng.random() < 0.5:
+        comps.append(c02.gen_comparison(rng, "c", engine))
+    rng.shuffle(comps)
+    for cc in comps:
+        for l in cc["levels"]:
+            if l.get("u") == 0.0:
+                l["u"] = 0.05
+    return add_extra_column(rng, {"engine": engine, "link_type": link_type, "tables": tables, "rules": rules, "comparisons": comps,
+                                  "prior": rng.choice([0.01, 0.1, 0.3, round(rng.uniform(0.01, 0.6), 3)]), "em_col": rng.choice(["a", "b", "c", "c"]), "tag": "lr_features"})
 
 
 BASE_PRES = {"names": "lower", "uidname": "unique_id", "outnames": "canonical"}
 
 
 def pres_kinds(scn):
+    """Re-presentation kinds applicable to a scenario.  `k1&k2` is one re-presentation made of two components."""
     duck = scn["engine"] == "duckdb"
-    two = len(scn["tables"]) == 2
+    multi = len(scn["tables"]) > 1
     kinds = ["row_perm", "names:mixed", "names:upper", "names:space", "names:keyword", "names:reserved", "names:mixture", "uidname:Id", "uidname:record id",
              "outnames", "ids:monotone", "ids:bijection", "ids:retype", "ids:bijection+retype",
-             "flags:blocked", "flags:both", "debug"]
+             # order-REVERSING relabelling (every pair turns round), int -> unpadded str ('10' < '9'), both
+             "ids:reverse", "ids:retype_unpadded", "ids:reverse+retype", "ids:bijection+retype_unpadded",
+             "flags:blocked", "flags:both", "debug",
+             # input FORM: the same tables registered in the database first, the Linker given their names (with / without aliases)
+             "input_form:names"]
     kinds.append("flags:tf" if duck else "flags:tf@nonduck")
-    if two:
-        kinds += ["table_order", "source_column", "col_order"]
+    if multi:
+        kinds += ["table_order", "source_column", "col_order",
+                  # source dataset renaming: same order / opposite order / Splink's positional default names (then the table order decides l and r)
+                  "sdnames:renamed", "sdnames:swapped", "sdnames:default", "table_order&sdnames:default", "source_column&sdnames:swapped",
+                  "input_form:names&sdnames:default", "input_form:names&sdnames:swapped"]
+        kinds += [f"sdcol:{c}" for c in SDCOLS]
+    else:
+        kinds += ["sdnames:renamed", "input_form:names&sdnames:renamed"]  # a single table given an alias
     if len(scn["rules"]) >= 2:
         kinds += ["rule_order"]
     if duck:
@@ -93,6 +176,9 @@ def pres_kinds(scn):
             kinds += ["salting", "salting"]  # twice: salts are random
     return kinds
 
+
+# Kinds whose purpose is to change which record of a pair is l and which is r
+FLIP_FAMILIES = ("ids", "sdnames", "table_order", "source_column", "input_form")
 
 # Re-presentations excluded from the generator because of a confirmed defect of the real code (each keeps one
 # corpus case under corpus/C13/):
@@ -119,14 +205,22 @@ def apply_kind(rng: random.Random, scn, pres: dict, kind: str):
             pres["names"] = rng.choice(["mixed", "upper"])
     elif k == "ids":
         allids = sorted({r["uid"] for t in scn["tables"] for r in t})
-        if "monotone" in arg:
-            a, b = rng.randint(1, 5), rng.randint(0, 50)
-            pres["idmap"] = {str(u): a * u + b for u in allids}
-        elif "bijection" in arg:
-            new = rng.sample(range(0, 60), len(allids))
-            pres["idmap"] = {str(u): v for u, v in zip(allids, new)}
-        if "retype" in arg:
-            pres["idtype"] = "str"
+        for part in arg.split("+"):
+            if part == "monotone":
+                a, b = rng.randint(1, 5), rng.randint(0, 50)
+                pres["idmap"] = {str(u): a * u + b for u in allids}
+            elif part == "bijection":
+                new = rng.sample(range(0, 60), len(allids))
+                pres["idmap"] = {str(u): v for u, v in zip(allids, new)}
+            elif part == "reverse":
+                top = max(allids) + rng.choice([0, 0, 1, 7])  # top - u: 0 is an id when the shift is 0
+                pres["idmap"] = {str(u): top - u for u in allids}
+            elif part == "retype":
+                pres["idtype"] = "str"
+            elif part == "retype_unpadded":
+                pres["idtype"] = "str_unpadded"
+            else:
+                raise ValueError(kind)
     elif k == "flags":
         arg = arg.partition("@")[0]
         pres["flags"] = {"tf": {"materialise_after_computing_term_frequencies": False},
@@ -135,11 +229,20 @@ def apply_kind(rng: random.Random, scn, pres: dict, kind: str):
     elif k == "debug":
         pres["debug"] = True
     elif k == "table_order":
-        pres["table_order"] = [1, 0]
+        order = list(range(len(scn["tables"])))
+        while order == list(range(len(scn["tables"]))):
+            rng.shuffle(order)
+        pres["table_order"] = order
     elif k == "col_order":
         pres["col_order"] = rng.randrange(1, 1 << 30)  # the later tables list the same columns in another order
     elif k == "source_column":
         pres["source_column"] = True
+    elif k == "sdnames":
+        pres["sdnames"] = arg
+    elif k == "sdcol":
+        pres["sdcol"] = arg
+    elif k == "input_form":
+        pres["input_form"] = arg
     elif k == "rule_order":
         order = list(range(len(scn["rules"])))
         while order == list(range(len(scn["rules"]))):
@@ -154,27 +257,59 @@ def apply_kind(rng: random.Random, scn, pres: dict, kind: str):
         raise ValueError(kind)
 
 
+def family_of(kind):
+    return kind.partition(":")[0]
+
+
+def build_presentation(rng, scn, kinds):
+    """One presentation from a list of (possibly compound) kinds; at most one component per family, source_column XOR table_order."""
+    ks, seen = [], set()
+    for kind in kinds:
+        comps = kind.split("&")
+        fams = [family_of(c) for c in comps]
+        if any(f in seen for f in fams) or ("source_column" in fams and "table_order" in seen) or ("table_order" in fams and "source_column" in seen):
+            continue
+        seen.update(fams)
+        ks += comps
+    p = {"kinds": ks}
+    for kind in ks:
+        apply_kind(rng, scn, p, kind)
+    return p
+
+
 def gen_presentations(rng, scn, n_single, n_combo, start=0):
     kinds = [k for k in pres_kinds(scn) if k not in EXCLUDED_KINDS]
     out = []
     # round-robin start so that every kind is covered across scenarios
     order = kinds[start % len(kinds):] + kinds[:start % len(kinds)]
     for kind in order[:n_single]:
-        p = {"kinds": [kind]}
-        apply_kind(rng, scn, p, kind)
-        out.append(p)
+        out.append(build_presentation(rng, scn, [kind]))
     for _ in range(n_combo):
-        ks, seen = [], set()
-        for kind in rng.sample(kinds, min(len(kinds), rng.randint(2, 5))):
-            fam = kind.partition(":")[0]
-            if fam in seen or (fam == "source_column" and "table_order" in seen) or (fam == "table_order" and "source_column" in seen):
-                continue
-            seen.add(fam)
-            ks.append(kind)
-        p = {"kinds": ks}
-        for kind in ks:
-            apply_kind(rng, scn, p, kind)
-        out.append(p)
+        out.append(build_presentation(rng, scn, rng.sample(kinds, min(len(kinds), rng.randint(2, 5)))))
+    return out
+
+
+def gen_flip_presentations(rng, scn, n_flip, n_combo, start=0):
+    """Re-presentations under which at least one pair of records changes its l/r order (decided on the presented keys), alone
+    and combined with 1-3 kinds of other families."""
+    kinds = [k for k in pres_kinds(scn) if k not in EXCLUDED_KINDS]
+    flips = [k for k in kinds if all(family_of(c) in FLIP_FAMILIES for c in k.split("&"))]
+    others = [k for k in kinds if not any(family_of(c) in FLIP_FAMILIES for c in k.split("&"))]
+    flips = flips[start % len(flips):] + flips[:start % len(flips)]
+    out, found = [], []
+    for kind in flips * 2:
+        if len(found) >= n_flip:
+            break
+        p = build_presentation(rng, scn, [kind])
+        if not order_preserved(scn, p):
+            found.append(kind)
+            out.append(p)
+    for _ in range(n_combo if found else 0):
+        for _try in range(4):
+            p = build_presentation(rng, scn, [rng.choice(found)] + rng.sample(others, min(len(others), rng.randint(1, 3))))
+            if not order_preserved(scn, p):
+                out.append(p)
+                break
     return out
 
 
@@ -187,19 +322,37 @@ def names_of(pres):
 
 def present_id(pres, u):
     v = pres["idmap"][str(u)] if pres.get("idmap") else u
-    return f"{v:05d}" if pres.get("idtype") == "str" else v
+    if pres.get("idtype") == "str":
+        return f"{v:05d}"
+    if pres.get("idtype") == "str_unpadded":
+        return str(v)  # '10' < '9'
+    return v
+
+
+def presented_alias(scn, pres, ti, pos):
+    """Source dataset name of canonical table `ti` given at position `pos` of the input list."""
+    sd = pres.get("sdnames")
+    if sd == "default":
+        # no aliases: Splink names the inputs by position (one table with a source column carries the canonical names)
+        return ALIASES[ti] if pres.get("source_column") else f"__splink__input_table_{pos}"
+    return SDNAMES[sd][ti] if sd else ALIASES[ti]
 
 
 def presented_tables(scn, pres):
-    """[(alias, rows in presented order with CANONICAL column keys and presented ids)], in presented table order."""
+    """[(canonical alias, presented source dataset name, rows in presented order with CANONICAL column keys and presented ids)],
+    in presented table order."""
     order = pres.get("table_order") or list(range(len(scn["tables"])))
     out = []
-    for ti in order:
+    for pos, ti in enumerate(order):
         rows = [dict(r, uid=present_id(pres, r["uid"]), canon_uid=r["uid"]) for r in scn["tables"][ti]]
         if pres.get("row_seed"):
             random.Random(pres["row_seed"] + ti).shuffle(rows)
-        out.append((ALIASES[ti], rows))
+        out.append((ALIASES[ti], presented_alias(scn, pres, ti, pos), rows))
     return out
+
+
+def sd_column(pres):
+    return pres.get("sdcol") or "source_dataset"
 
 
 def q(name):
@@ -226,6 +379,11 @@ def settings_dict(scn, pres):
                 d["tf_adjustment_column"] = nm[c["col"]]
                 d["tf_adjustment_weight"] = l["tf"]["weight"]
                 d["tf_minimum_u_value"] = l["tf"]["minU"]
+                if l["tf"].get("omit_defaults"):  # the documented defaults, by omission
+                    if d["tf_adjustment_weight"] == 1.0:
+                        del d["tf_adjustment_weight"]
+                    if d["tf_minimum_u_value"] == 0.0:
+                        del d["tf_minimum_u_value"]
                 if l["tf"].get("disable_detection"):
                     d["disable_tf_exact_match_detection"] = True
             lv.append(d)
@@ -238,10 +396,15 @@ def settings_dict(scn, pres):
             brs.append({"blocking_rule": text, "salting_partitions": pres["salting"][pos]})
         else:
             brs.append(text)
-    return {"link_type": scn["link_type"], "comparisons": comps, "blocking_rules_to_generate_predictions": brs,
-            "probability_two_random_records_match": scn["prior"], "unique_id_column_name": nm["uid"],
-            "retain_matching_columns": True, "retain_intermediate_calculation_columns": True,
-            "max_iterations": EM_ITER, "em_convergence": 1e-12}
+    out = {"link_type": scn["link_type"], "comparisons": comps, "blocking_rules_to_generate_predictions": brs,
+           "probability_two_random_records_match": scn["prior"], "unique_id_column_name": nm["uid"],
+           "retain_matching_columns": True, "retain_intermediate_calculation_columns": True,
+           "max_iterations": EM_ITER, "em_convergence": 1e-12}
+    if pres.get("sdcol"):
+        out["source_dataset_column_name"] = pres["sdcol"]
+    if scn.get("extra"):
+        out["additional_columns_to_retain"] = [nm["d"]]
+    return out
 
 
 def column_back_map(scn, pres):
@@ -250,8 +413,8 @@ def column_back_map(scn, pres):
     m = {}
     for side in ("_l", "_r"):
         m[nm["uid"] + side] = "unique_id" + side
-        m["source_dataset" + side] = "source_dataset" + side
-        for col in ("a", "b", "c"):
+        m[sd_column(pres) + side] = "source_dataset" + side
+        for col in ("a", "b", "c", "d"):
             m[nm[col] + side] = col + side
             m["tf_" + nm[col] + side] = "tf_" + col + side
     for ci, c in enumerate(scn["comparisons"]):
@@ -284,29 +447,42 @@ def run_impl(job: dict) -> dict:
     scn, pres = job["scn"], job["pres"]
     nm = names_of(pres)
     api = impl.make_api(scn["engine"], threads=pres.get("threads", 2))
-    idt = "str" if pres.get("idtype") == "str" else "int"
-    types = {nm["uid"]: idt, nm["a"]: "str", nm["b"]: "str", nm["c"]: "int"}
+    idt = "str" if pres.get("idtype") in ("str", "str_unpadded") else "int"
+    types = {nm["uid"]: idt, nm["a"]: "str", nm["b"]: "str", nm["c"]: "int"} | ({nm["d"]: "str"} if scn.get("extra") else {})
     pt = presented_tables(scn, pres)
     multi = len(pt) > 1
+    sdc = sd_column(pres)
     back_id = {}
-    for al, rows in pt:
+    for al, pal, rows in pt:
         for r in rows:
-            back_id[(al, str(r["uid"]))] = (al, r["canon_uid"])
+            back_id[(pal if multi else al, str(r["uid"]))] = (al, r["canon_uid"])
 
     def frame(rows, with_sd=None):
-        recs = [{nm["uid"]: r["uid"], nm["a"]: r["a"], nm["b"]: r["b"], nm["c"]: r["c"]} | ({"source_dataset": with_sd[i]} if with_sd else {}) for i, r in enumerate(rows)]
-        return impl.typed_frame(recs, ({"source_dataset": "str"} if with_sd else {}) | types)
+        recs = [{nm["uid"]: r["uid"], nm["a"]: r["a"], nm["b"]: r["b"], nm["c"]: r["c"]} | ({nm["d"]: r["d"]} if scn.get("extra") else {}) | ({sdc: with_sd[i]} if with_sd else {})
+                for i, r in enumerate(rows)]
+        return impl.typed_frame(recs, ({sdc: "str"} if with_sd else {}) | types)
+
+    def given(frames_):
+        """The input FORM: the frames themselves, or the names of tables registered in the database beforehand."""
+        if pres.get("input_form") != "names":
+            return frames_
+        names = [f"c13_registered_input_{i}" for i in range(len(frames_))]
+        for f, n in zip(frames_, names):
+            api.register_table(f, n)
+        return names
 
     settings = settings_dict(scn, pres)
     if not multi:
-        linker = Linker(frame(pt[0][1]), settings, api)
+        # the canonical form gives a single table no alias
+        kw = {"input_table_aliases": SDNAMES[pres["sdnames"]][0]} if pres.get("sdnames") in SDNAMES else {}
+        linker = Linker(given([frame(pt[0][2])])[0], settings, api, **kw)
     elif pres.get("source_column"):
-        allrows = [(al, r) for al, rows in pt for r in rows]
+        allrows = [(pal, r) for _, pal, rows in pt for r in rows]
         if pres.get("row_seed"):
             random.Random(pres["row_seed"] + 99).shuffle(allrows)
-        linker = Linker(frame([r for _, r in allrows], with_sd=[al for al, _ in allrows]), settings, api)
+        linker = Linker(given([frame([r for _, r in allrows], with_sd=[pal for pal, _ in allrows])])[0], settings, api)
     else:
-        frames_ = [frame(rows) for _, rows in pt]
+        frames_ = [frame(rows) for _, _, rows in pt]
         if pres.get("col_order"):
             crng = random.Random(pres["col_order"])
             for i in range(1, len(frames_)):
@@ -315,7 +491,8 @@ def run_impl(job: dict) -> dict:
                 while perm == cols:
                     crng.shuffle(perm)
                 frames_[i] = frames_[i][perm]
-        linker = Linker(frames_, settings, api, input_table_aliases=[al for al, _ in pt])
+        kw = {} if pres.get("sdnames") == "default" else {"input_table_aliases": [pal for _, pal, _ in pt]}
+        linker = Linker(given(frames_), settings, api, **kw)
     if pres.get("debug"):
         linker._db_api.debug_mode = True
     out = {}
@@ -333,9 +510,10 @@ def _pipeline(linker, scn, pres, job, nm, multi, back_id, out):
     from harness import impl
 
     back = column_back_map(scn, pres)
+    sdc = sd_column(pres)
 
     def rid(row, side):
-        al = row["source_dataset" + side] if multi else ALIASES[0]
+        al = row[sdc + side] if multi else ALIASES[0]
         key = (al, str(row[nm["uid"] + side]))
         return back_id.get(key, ("?not-an-input-record", repr(key)))  # an id the inputs do not contain is a result to compare, not a harness error
 
@@ -360,7 +538,7 @@ def _pipeline(linker, scn, pres, job, nm, multi, back_id, out):
     cc = linker.clustering.cluster_pairwise_predictions_at_threshold(df_predict, threshold_match_probability=thr).as_record_dict()
     clus = []
     for r in cc:
-        al = r["source_dataset"] if multi else ALIASES[0]
+        al = r[sdc] if multi else ALIASES[0]
         node = back_id.get((al, str(r[nm["uid"]])), ("?not-an-input-record", repr((al, str(r[nm["uid"]])))))
         cid = str(r["cluster_id"])
         if multi:
@@ -395,10 +573,9 @@ def effective_keys(scn, pres):
     """canonical record id -> the value the engine orders records by under this presentation."""
     multi = len(scn["tables"]) > 1
     out = {}
-    for ti, t in enumerate(scn["tables"]):
-        for r in t:
-            u = present_id(pres, r["uid"])
-            out[(ALIASES[ti], r["uid"])] = f"{ALIASES[ti]}-__-{u}" if multi else u
+    for al, pal, rows in presented_tables(scn, pres):
+        for r in rows:
+            out[(al, r["canon_uid"])] = f"{pal}-__-{r['uid']}" if multi else r["uid"]
     return out
 
 
@@ -486,9 +663,9 @@ def compare_outputs(scn, pres, base, got) -> str | None:
 def model_records(scn, pres):
     """Records of the concatenated table in presented order, canonical column keys, presented ids and aliases."""
     recs = []
-    for al, rows in presented_tables(scn, pres):
+    for al, pal, rows in presented_tables(scn, pres):
         for r in rows:
-            recs.append({"source_dataset": al, "unique_id": r["uid"], "a": r["a"], "b": r["b"], "c": r["c"], "canon": (al, r["canon_uid"])})
+            recs.append({"source_dataset": pal, "unique_id": r["uid"], "a": r["a"], "b": r["b"], "c": r["c"], "canon": (al, r["canon_uid"])})
     return recs
 
 
@@ -510,8 +687,8 @@ def block_request(scn, pres):
         else:
             rules.append({"kind": "plain", "n": 0, "eval": mat})
     lt = scn["link_type"]
-    if lt == "link_only" and multi and not pres.get("source_column"):
-        lt = "two_dataset_link_only"
+    if lt == "link_only" and len(scn["tables"]) == 2 and not pres.get("source_column"):
+        lt = "two_dataset_link_only"  # the two-table split; three tables / one table with a source column: the general self-join
     return {"op": "block", "lt": lt, "m": len(recs), "key": keys, "sd": sds, "salt": salts, "rules": rules}, recs
 
 
@@ -577,6 +754,34 @@ def model_invariance(scn, pres, mb_base, recs_base, mb, recs) -> str | None:
     return None
 
 
+def lr_witness(scn, base, got):
+    """What the case exercises of 'the score of a pair does not depend on which record is l' (evidence only, decides nothing):
+    (scored pairs emitted in the opposite orientation, those of them assigned a TF-adjusted level that is not the exact match
+    whose two records have different term frequencies, those of them where tf_minimum_u_value is below both)."""
+    bkeys = {(tup(r["l"]), tup(r["r"])) for r in base["predict"]}
+    flipped = tf_fuzzy = tf_active = 0
+    for r in got["predict"]:
+        l, rr = tup(r["l"]), tup(r["r"])
+        if (l, rr) in bkeys or (rr, l) not in bkeys:
+            continue
+        flipped += 1
+        hit = act = False
+        for ci, c in enumerate(scn["comparisons"]):
+            g = r["vals"].get(f"gamma_{c['col']}{ci}")
+            nn = [lv for lv in c["levels"] if lv["kind"] != "null"]
+            if g is None or g < 0 or g >= len(nn):
+                continue
+            lv = nn[len(nn) - 1 - g]
+            tl, tr = r["vals"].get(f"tf_{c['col']}_l"), r["vals"].get(f"tf_{c['col']}_r")
+            if "tf" in lv and lv["kind"] != "eq" and tl is not None and tr is not None and tl != tr:
+                hit = True
+                if lv["tf"]["weight"] != 0 and lv["tf"]["minU"] < max(tl, tr):
+                    act = True
+        tf_fuzzy += hit
+        tf_active += act
+    return flipped, tf_fuzzy, tf_active
+
+
 # --------------------------------------------------------------------------- driver
 def kinds_label(pres):
     return "+".join(sorted(k.partition(":")[0] for k in pres["kinds"])) if len(pres["kinds"]) > 1 else pres["kinds"][0]
@@ -592,6 +797,9 @@ def failure_info(scn, pres, what):
             cls = c
             break
     info = {"failure": cls, "representation": "+".join(fams), "engine": scn["engine"]}
+    if pres.get("sdcol"):  # stable keys for a failure that follows the renamed source dataset column through every combination
+        info["source_dataset_column"] = "needs quoting" if not pres["sdcol"].isidentifier() else "plain identifier"
+        info["two_table_link_only_split"] = scn["link_type"] == "link_only" and len(scn["tables"]) == 2 and not pres.get("source_column")
     if cls == "real code raised":
         info["error"] = what.split("real code raised ", 1)[1].split(" ", 1)[0].rstrip(":")
     return info
@@ -615,7 +823,8 @@ def minimise(scn, pres, thr):
     budget = 40
     # presentation kinds
     field_of = {"row_perm": ["row_seed"], "names": ["names"], "uidname": ["uidname"], "outnames": ["outnames"], "ids": ["idmap", "idtype"], "flags": ["flags"],
-                "debug": ["debug"], "table_order": ["table_order"], "col_order": ["col_order"], "source_column": ["source_column"], "rule_order": ["rule_order"], "threads": ["threads"], "salting": ["salting", "salt_seed"]}
+                "debug": ["debug"], "table_order": ["table_order"], "col_order": ["col_order"], "source_column": ["source_column"], "rule_order": ["rule_order"], "threads": ["threads"], "salting": ["salting", "salt_seed"],
+                "sdnames": ["sdnames"], "sdcol": ["sdcol"], "input_form": ["input_form"]}
     if len(cur_p["kinds"]) > 1:
         for kind in list(cur_p["kinds"]):
             cand = dict(cur_p)
@@ -624,6 +833,8 @@ def minimise(scn, pres, thr):
             cand["kinds"] = [k for k in cur_p["kinds"] if k != kind]
             if not cand["kinds"]:
                 continue
+            if kind == "outnames" and not any(k.startswith("names:") for k in cand["kinds"]):
+                cand.pop("names", None)  # the column names `outnames` brought along
             budget -= 1
             if fails(cur_s, cand):
                 cur_p = cand
@@ -721,6 +932,17 @@ def evaluate(ctx, work, drv):
         ctx.count("n_rules", len(scn["rules"])); ctx.count("n_scored_pairs", len(b["predict"]) if len(b["predict"]) < 4 else "4-15" if len(b["predict"]) <= 15 else ">15")
         ctx.count("orientation_preserved", order_preserved(scn, pres)); ctx.count("em", b["em"])
         ctx.count("has_tf", any("tf" in l for c in scn["comparisons"] for l in c["levels"]))
+        tfl = [l for c in scn["comparisons"] for l in c["levels"] if "tf" in l and l["kind"] != "eq"]
+        ctx.count("tf_on_non_exact_level", "none" if not tfl else "+".join(sorted({"min_u=0" if l["tf"]["minU"] == 0 else "min_u>0" for l in tfl})))
+        ctx.count("family", scn.get("tag", "random")); ctx.count("n_tables", len(scn["tables"])); ctx.count("additional_columns_to_retain", bool(scn.get("extra")))
+        ctx.count("input_form", pres.get("input_form", "frames") + ("+source_column" if pres.get("source_column") else ""))
+        ctx.count("id_type", pres.get("idtype", "int"))
+        if len(scn["tables"]) > 1:
+            ctx.count("source_dataset_names", pres.get("sdnames", "canonical") + ("" if not pres.get("sdcol") else "+column renamed"))
+        if "__error__" not in r:
+            nf, ntf, nact = lr_witness(scn, b, r)
+            ctx.count("scored_pairs_with_l_r_swapped", 0 if nf == 0 else "1-3" if nf <= 3 else ">3")
+            ctx.count("swapped_pair_in_tf_adjusted_non_exact_level_with_tf_l!=tf_r", "no" if ntf == 0 else "yes, adjustment inactive (weight 0 / min_u above both)" if nact == 0 else "yes, adjustment active")
         if core.impl_error(r):
             ctx.count("impl_error", f"{lab}: {r['__error__']}")
             problems.append((scn, pres, f"real code raised {r['__error__']} under the re-presentation (canonical form runs): {r['text'][:300]}", True))
@@ -742,32 +964,42 @@ def evaluate(ctx, work, drv):
     return problems
 
 
-def gen_work(ctx, rng, n_scn, n_single, n_combo):
+def gen_work(ctx, rng, n_scn, n_single, n_combo, n_lr=None):
     work = []
     for i in range(n_scn):
         scn = gen_scenario(rng)
         work.append((scn, gen_presentations(rng, scn, n_single, n_combo, start=i * n_single)))
+    # family lr_features x orientation-changing re-presentations
+    for i in range(n_scn // 3 if n_lr is None else n_lr):
+        scn = gen_scenario_lr(rng)
+        work.append((scn, gen_flip_presentations(rng, scn, n_single - 2, n_combo, start=i * (n_single - 2))))
     return work
 
 
 def run(ctx: core.Ctx):
     ctx.rule = (
-        "base scenarios = 1 table (dedupe_only, 4-9 records) or 2 tables (link_only / link_and_dedupe, 2-6 records each, overlapping int ids), tiny string/int domains, NULL rate 0-25%, "
+        "base scenarios = 1 table (dedupe_only, 4-9 records), 2 tables (link_only / link_and_dedupe, 2-6 records each) or 3 tables (2-4 records each), overlapping int ids, tiny string/int domains, NULL rate 0-25%, "
         "0-3 blocking rules symmetric in l/r over eq/substr/AND/OR/NOT, 2-3 comparisons (exact / levenshtein / abs-diff, null level 85%, TF adjustments 60%), duckdb 75% / sqlite 25%; "
-        "each scenario is run once canonically (lower-case names, int ids, explicit aliases) and once per re-presentation: row permutation, table order (aliases attached), column names "
-        "(Mixed, UPPER, with spaces, SQL keywords, mixture; unique-id column renamed; output_column_name renamed), ids relabelled (order preserving / arbitrary bijection) and retyped "
-        "(int -> zero-padded str), two tables vs one table with a source_dataset column, rule order, salting 1-8 partitions per rule (twice), materialise_* flags of predict, debug mode, "
-        "duckdb threads 1/4/16; singles (round-robin over scenarios) + random combinations of 2-5. Compared: scored pair set with match_key, every predict column, cluster partition "
+        "each scenario is run once canonically (lower-case names, int ids, frames with explicit aliases ta/tb/tc) and once per re-presentation: row permutation, table order (aliases attached), column names "
+        "(Mixed, UPPER, with spaces, SQL keywords, mixture; unique-id column renamed; output_column_name renamed; source_dataset_column_name renamed), ids relabelled (order preserving / order reversing / arbitrary bijection) and retyped "
+        "(int -> zero-padded str, int -> unpadded str where '10' < '9'), source datasets renamed (same order / opposite order / no aliases = Splink's positional names, alone and with the table order swapped), "
+        "input form (frames vs names of tables registered in the database beforehand, with / without aliases), two-three tables vs one table with a source dataset column (its values renamed too), rule order, "
+        "salting 1-8 partitions per rule (twice), materialise_* flags of predict, debug mode, duckdb threads 1/4/16; singles (round-robin over scenarios) + random combinations of 2-5. "
+        "Family lr_features (1/4 of the scenarios): every string column carries a levenshtein ladder (exact + lev<=1 [+ lev<=2], or lev<=1 alone) with TF adjustments on the NON-exact levels (weight 1/fractional/0, "
+        "tf_minimum_u_value absent/0/0.01/0.2, exact-match detection on/off), value frequencies skewed so that the two records of a fuzzy pair have different term frequencies, strings incl. '' and distance-2 neighbours; "
+        "it is re-presented only in ways under which at least one pair of records changes its l/r order (decided on the presented keys), alone and combined with 1-3 other kinds. "
+        "Compared: scored pair set with match_key, every predict column (a pair emitted the other way round: with _l/_r columns exchanged), cluster partition "
         "(and cluster ids when id order is preserved) at a threshold away from every score, parameters after estimate_u(full sample) + one EM session (4 iterations). "
         "non-trivial = at least one scored pair; distinct = hash of (scenario, presentation)."
     )
     ctx.assumptions = [
         "the oracle is the invariance itself: real output under a re-presentation, mapped back to canonical names/ids, vs real output in canonical form (floats: 1e-9 relative for predict columns, 1e-7 for trained parameters)",
-        "blocking rules are symmetric in l/r (for asymmetric rules the property only gives the C01 bounds); comparison levels used are symmetric, so a flipped orientation (id relabelling that changes the id order) must give the same scores",
-        "when the order of the effective ids changes (arbitrary bijection; retyping under composite string ids) unordered pairs and cluster partitions are compared, not orientation or cluster_id values",
+        "blocking rules are symmetric in l/r (for asymmetric rules the property only gives the C01 bounds); comparison levels used are symmetric (asymmetric custom levels are out of scope), so a flipped orientation (id relabelling / retyping, source dataset renaming, table order without aliases) must give the same gammas, Bayes factors (incl. bf_tf_adj_*) and scores, with the _l/_r columns exchanged",
+        "when the order of the effective ids changes (arbitrary bijection; retyping under composite string ids; renamed source datasets) unordered pairs and cluster partitions are compared, not orientation or cluster_id values; the orientation itself is checked against the Lean blocking model run on the presented keys",
         "rule reordering: pair sets compared without match_key; EM: convergence threshold 1e-12 and 4 iterations so that rounding cannot change the iteration count",
-        "thread count, materialisation flags and debug mode are runtime behaviour outside the models: covered by repetition only (level partial for scheduling)",
+        "thread count, materialisation flags, debug mode and the input form (frames vs registered table names) are runtime behaviour outside the models: covered by repetition only (level partial for scheduling)",
         "debug mode is compared on outputs only (its table-name clobbering is K3 / C18)",
+        "source dataset names are plain identifiers of equal length class (no name is a prefix of another), so that the order of composite ids is the order of (source dataset, id)",
     ]
     ctx.lean = core.lean_check(PROP, ctx.thorough)
     drv = core.Driver()
@@ -786,7 +1018,14 @@ def run(ctx: core.Ctx):
     concrete = [(s, p, w) for s, p, w, conc in problems if conc]
     broken = [(s, p, w) for s, p, w, conc in problems if not conc]
     reported = set()
-    for s, p, w in concrete:
+    # at most 5 reports; one per failure class first, so that many variants of one failure cannot crowd out another failure
+    first_of_class, rest, classes = [], [], set()
+    for item in concrete:
+        mi = failure_info(*item)
+        cls = (mi["failure"], mi.get("error"))
+        (rest if cls in classes else first_of_class).append(item)
+        classes.add(cls)
+    for s, p, w in first_of_class + rest:
         mi = failure_info(s, p, w)
         key = json.dumps(mi, sort_keys=True)
         if key in reported or len(reported) >= 5:
